@@ -739,6 +739,47 @@ theorem C09_never_silent_real {F} (ops : FloatOps F) (lookup : Int → RefLookup
     (input.all isSpace = true ∧ r.val = .unset) :=
   never_silent_real_of_cfg ops Generated.lexCfg (by decide) (by decide) lookup nullable input hfirst r h hne
 
+/-! ### REAL writer, under `FloatLaws` (hypotheses) -/
+
+/-- `FloatLaws`: what the REAL writer theorem assumes about the platform's conversions *for the value at hand* — explicit
+    hypotheses, validated against libc by `checks/c09.py` (`fl g15`, `fl parse`, the writer grid), never axioms.
+    * `shape` (L2): `%.15G` prints optional `-`, digits, optionally `.` digits, optionally `E` sign digits;
+    * `stable` (L1): reading the printed text gives the value back (true for every double that is the nearest double of a
+      decimal with at most 15 significant digits — `DBL_DIG`). -/
+structure FloatLaws {F} (ops : FloatOps F) (v : F) : Prop where
+  shape : G15Shape (ops.fmtG15 v)
+  stable : ∃ dec, parseFloatText (ops.fmtG15 v) = some dec ∧ ops.ofDecimal dec = some v
+
+/-- REAL, writer is conforming (under L2): the written token is in the grammar `real` — it always has a decimal point and an
+    upper-case `E` — and denotes the decimal `%.15G` printed -/
+theorem C09_write_real_conforming {F} (ops : FloatOps F) (v : F) (h : G15Shape (ops.fmtG15 v)) :
+    isReal (attrWrite ops .real (.real v)) = true ∧
+    denoteReal (attrWrite ops .real (.real v)) = parseFloatText (ops.fmtG15 v) := by
+  obtain ⟨sg, ip, fp, ex, hw, hsg, hip1, hip, hfp, hex, hparse⟩ := writeReal_shape ops v h
+  simp only [attrWrite, hw]
+  exact ⟨isReal_realText sg ip fp ex hsg hip1 hip hfp hex,
+    by unfold denoteReal; rw [parse_realText sg ip fp 69 ex hsg hip1 hip hfp (Or.inl rfl) hex, hparse]⟩
+
+/-- REAL, writer output reads back (under `FloatLaws`): the written token followed by blanks and a delimiter is read to the
+    same value with no error, the stream resting at the delimiter -/
+theorem C09_write_read_real {F} (ops : FloatOps F) (cfg : LexCfg) (lookup : Int → RefLookup) (nullable : Bool) (v : F)
+    (laws : FloatLaws ops v) (hnn : ops.isRealNull v = false)
+    (hbuf : cfg.realBuf = 0 ∨ (attrWrite ops .real (.real v)).length < cfg.realBuf)
+    (sp rest : List Byte) (d : Byte) (hsp : sp.all isSpace = true) (hd : d = 44 ∨ d = 41) :
+    attrRead ops cfg lookup .real nullable (IStream.ofBytes (attrWrite ops .real (.real v) ++ sp ++ d :: rest)) =
+      .ok ⟨.null, .real v, { left := sp.reverse ++ (attrWrite ops .real (.real v)).reverse, right := d :: rest }⟩ := by
+  obtain ⟨hreal, hden⟩ := C09_write_real_conforming ops v laws.shape
+  obtain ⟨dec, hp, hv⟩ := laws.stable
+  exact C09_accept_real ops cfg lookup nullable _ sp rest d dec v hreal (by rw [hden, hp]) hv hnn hbuf hsp hd
+
+-- the hypotheses are satisfiable: the executable instance satisfies both laws at 1.5 (bits 0x3FF8000000000000, printed `1.5`)
+theorem fmt_one_and_a_half : dblOps.fmtG15 0x3FF8000000000000 = [49, 46, 53] := by rfl
+
+example : FloatLaws dblOps 0x3FF8000000000000 where
+  shape := ⟨[], [49], [46, 53], none, by rw [fmt_one_and_a_half]; rfl, Or.inl rfl, by decide, by decide,
+    Or.inr ⟨[53], rfl, by decide, by decide⟩, trivial⟩
+  stable := ⟨⟨false, 15, -1⟩, by rw [fmt_one_and_a_half]; rfl, by rfl⟩
+
 /-! ## entity reference -/
 
 /-- entity reference, never silent (any configuration that keeps the severity found after `$`): for any input bytes
